@@ -101,9 +101,11 @@ Record quirks : Set := mkQ { q_side : bool; q_cache : bool; q_rebuild : bool }.
 Definition quirks_off : quirks := mkQ false false false.
 Definition quirks_on : quirks := mkQ true true true.
 
-(* format tags: 0 = jd, 1 = mjd, 2 = gps_ws (three columns);  scale tags: 0 = scale of the root,
+(* format tags: 0 = jd, 1 = mjd, 2 = gps_ws (three columns), 3 = days, 4 = seconds, 5 = datetime, 6 = isot;  scale tags: 0 = scale of the root,
    1 = the other scale of the history *)
-Definition multi (fmt : Z) : bool := fmt =? 2.
+(* formats whose single epoch cannot be rebuilt from its values under q_rebuild: 2 = gps_ws (repaired in the
+   source since), 5 = datetime, 6 = isot (the format classes loop over / hash a 0-d array) *)
+Definition multi (fmt : Z) : bool := (fmt =? 2) || (fmt =? 5) || (fmt =? 6).
 
 Section Model.
   Variables V J : Type.
